@@ -242,11 +242,24 @@ def make_harness(job):
                     try:
                         struct_eq(want, got, conds)
                     except Mismatch as e:
-                        ctx.violation('cached-result-differs-from-uncached-compile', 'call %d: %s' % (i + 1, str(e)[:120]))
+                        pm = ctx.eng.check_model(z3.And([z3.And(z3.UGE(c, 0x20), z3.ULE(c, 0x7e), c != 0x22)
+                                                         for call in calls for b in call['contents'].values()
+                                                         if isinstance(b, SymBytes) for c in b.c] + [z3.BoolVal(True)]))
+                        ctx.violation('cached-result-differs-from-uncached-compile', 'call %d: %s' % (i + 1, str(e)[:120]),
+                                      model=pm)
                         return
-                    if conds and not ctx.prove('cached-result-equals-uncached-compile', z3.And(conds),
-                                               info='call %d' % (i + 1)):
-                        return
+                    if conds:
+                        # prefer a witness whose octets can be written inside an ASN.1 string literal, so
+                        # that the replay can use the real parser and compiler (see replay())
+                        printable = z3.And([z3.And(z3.UGE(c, 0x20), z3.ULE(c, 0x7e), c != 0x22)
+                                            for call in calls for b in call['contents'].values()
+                                            if isinstance(b, SymBytes) for c in b.c] + [z3.BoolVal(True)])
+                        if not ctx.prove('cached-result-equals-uncached-compile',
+                                         z3.Or(z3.And(conds), z3.Not(printable)), info='call %d' % (i + 1)):
+                            return
+                        if not ctx.prove('cached-result-equals-uncached-compile', z3.And(conds),
+                                         info='call %d' % (i + 1)):
+                            return
                     ctx.res.proved += 0 if conds else 1
             ctx.res.xval += 1
             ctx.sample({'job': job['id'], 'calls': [(c['files'], c['codec'], c['ne']) for c in calls]})
@@ -259,7 +272,82 @@ def make_harness(job):
     return harness
 
 
+REAL_TEXT = {
+    'f1': 'M DEFINITIONS ::= BEGIN\nT ::= SEQUENCE { t INTEGER, v ANY DEFINED BY t OPTIONAL, '
+          's UTF8String DEFAULT "%s", e ENUMERATED { x(1), y(2) } DEFAULT y }\nEND\n',
+    'f2': 'N DEFINITIONS ::= BEGIN\nU ::= SEQUENCE { t INTEGER, s UTF8String DEFAULT "%s", '
+          'e ENUMERATED { p(1), q(2) } DEFAULT q }\nEND\n',
+}
+
+
+def _observe(spec):
+    """behaviour of a compiled specification through its public API"""
+    out = []
+    for name in ('T', 'U'):
+        if name not in spec.types:
+            out.append((name, 'absent'))
+            continue
+        for value in ({'t': 1}, {'t': 1, 'v': 5}):
+            try:
+                enc = spec.encode(name, value)
+                out.append((name, 'enc', enc.hex(), repr(spec.decode(name, enc))))
+            except Exception as e:
+                out.append((name, type(e).__name__))
+    return out
+
+
+def replay_real(calls):
+    """the witness with REAL ASN.1 files (the witness octets become the text of a string literal), the
+    real parser, the real compiler and the real diskcache, compared with uncached compiles through the
+    public API.  Returns None when the witness cannot be embedded."""
+    import tempfile
+    import shutil
+    for c in calls:
+        for f in ('f1', 'f2'):
+            b = bytes.fromhex(c['contents'][f])
+            if not all(0x20 <= x <= 0x7e and x != 0x22 for x in b):
+                return None
+    d = tempfile.mkdtemp(dir='/var/tmp')
+    try:
+        for i, c in enumerate(calls):
+            for f in ('f1', 'f2'):
+                path = os.path.join(d, f)
+                with open(path, 'wb') as fo:
+                    fo.write((REAL_TEXT[f] % bytes.fromhex(c['contents'][f]).decode('ascii')).encode('ascii'))
+                if c.get('mtime'):
+                    t = 1700000000 + int(c['mtime'][f])
+                    os.utime(path, (t, t))
+            files = [os.path.join(d, f) for f in c['files']] if isinstance(c['files'], list) \
+                else os.path.join(d, c['files'])
+            adb = eval(c['adb'])
+            kw = dict(any_defined_by_choices=adb, encoding=c['encoding'], numeric_enums=c['numeric_enums'])
+            try:
+                cached = _observe(asn1tools.compile_files(files, c['codec'], cache_dir=os.path.join(d, 'cache'), **kw))
+            except Exception as e:
+                cached = ['compile raised %s' % type(e).__name__]
+            try:
+                plain = _observe(asn1tools.compile_files(files, c['codec'], **kw))
+            except Exception as e:
+                plain = ['compile raised %s' % type(e).__name__]
+            if cached != plain:
+                return True, ('call %d compile_files(%r, %r, numeric_enums=%r, any_defined_by_choices=%s) with a cache '
+                              'directory behaves like an earlier compile: %r, without cache: %r (file texts embed the '
+                              'witness octets %r in a string literal)' % (
+                                  i + 1, c['files'], c['codec'], c['numeric_enums'], c['adb'], cached[:2], plain[:2],
+                                  {f: bytes.fromhex(c['contents'][f]) for f in ('f1', 'f2')}))
+        return False, 'real files: every cached compile behaves like the uncached one'
+    finally:
+        shutil.rmtree(d, ignore_errors=True)
+
+
 def replay(v):
+    r = replay_real(v['witness']['inputs']['calls'])
+    if r is not None:
+        return r
+    return replay_tokens(v)
+
+
+def replay_tokens(v):
     """replay on the REAL _compile_files_cache with the REAL diskcache in a temporary directory and
     real files holding the witness bytes; only parse_files/compile_dict are replaced by token
     builders (the witness bytes are not ASN.1 text)"""
